@@ -89,3 +89,62 @@ fn vfind_c12_shrinking_announcement_drops_claims() {
     assert_eq!(t.claim_len(), 1, "withdrawn claim is still in the table");
     assert_eq!(t.lookup(crate::types::Address::from_str("10.0.2.7").unwrap()), None);
 }
+
+/// C06 / F11: two ends whose lists contain the same ciphers with equal speeds but in different order select the
+/// same cipher
+#[test]
+fn vfind_c06_tie_with_different_list_order() {
+    use crate::crypto::{Algorithms, MessageResult, PeerCrypto};
+    use crate::util::MsgBuffer;
+    use ring::aead::{AES_128_GCM, AES_256_GCM, CHACHA20_POLY1305};
+    use ring::signature::{Ed25519KeyPair, KeyPair};
+    use std::sync::Arc;
+    let kp = Arc::new(Ed25519KeyPair::from_seed_unchecked(&[9u8; 32]).unwrap());
+    let mut pk = [0u8; 32];
+    pk.clone_from_slice(kp.public_key().as_ref());
+    let trusted: Arc<[[u8; 32]]> = Arc::new([pk]);
+    let a1 = Algorithms { algorithm_speeds: smallvec::smallvec![(&AES_128_GCM, 100.0), (&AES_256_GCM, 100.0), (&CHACHA20_POLY1305, 50.0)], allow_unencrypted: false };
+    let a2 = Algorithms { algorithm_speeds: smallvec::smallvec![(&AES_256_GCM, 100.0), (&AES_128_GCM, 100.0), (&CHACHA20_POLY1305, 50.0)], allow_unencrypted: false };
+    let mut n1: PeerCrypto<Vec<u8>> = PeerCrypto::new([1; 16], vec![], kp.clone(), trusted.clone(), a1);
+    let mut n2: PeerCrypto<Vec<u8>> = PeerCrypto::new([2; 16], vec![], kp, trusted, a2);
+    let mut msg = MsgBuffer::new(16);
+    n1.initialize(&mut msg).unwrap();
+    assert_eq!(n2.handle_message(&mut msg).unwrap(), MessageResult::Reply);
+    // with different choices the pong cannot be opened by n1
+    let r = n1.handle_message(&mut msg);
+    assert!(r.is_ok(), "handshake failed: the two ends chose different ciphers");
+    n2.handle_message(&mut msg).unwrap();
+    assert_eq!(n1.algorithm_name(), n2.algorithm_name());
+}
+
+/// C20 / F10: prefix length 0 yields the all-zero netmask, not a panic
+#[test]
+fn vfind_c20_prefix_zero() {
+    let (ip, mask) = crate::parse_ip_netmask("10.0.0.1/0").unwrap();
+    assert_eq!(ip, std::net::Ipv4Addr::new(10, 0, 0, 1));
+    assert_eq!(mask, std::net::Ipv4Addr::new(0, 0, 0, 0));
+    assert_eq!(crate::parse_ip_netmask("10.0.0.1/32").unwrap().1, std::net::Ipv4Addr::new(255, 255, 255, 255));
+    assert!(crate::parse_ip_netmask("10.0.0.1/33").is_err());
+}
+
+/// C15 / F5: peer timeouts below 120 s are configurable; nodes using them must run and must announce more often than
+/// the smallest advertised timeout
+#[test]
+fn vfind_c15_small_peer_timeouts() {
+    for own in [10u32, 100, 119, 120, 300] {
+        for other in [10u32, 60, 119, 300] {
+            let c1 = Config { device_type: Type::Tap, mode: Mode::Switch, peer_timeout: own, ..Config::default() };
+            let c2 = Config { device_type: Type::Tap, mode: Mode::Switch, peer_timeout: other, ..Config::default() };
+            let mut sim = TapSimulator::new();
+            let node1 = sim.add_node(false, &c1);
+            let node2 = sim.add_node(false, &c2);
+            sim.connect(node1, node2);
+            sim.simulate_all_messages();
+            assert!(sim.is_connected(node1, node2));
+            // run for three times the larger timeout: healthy peers never time out
+            sim.simulate_time(3 * std::cmp::max(own, other) as Time + 10);
+            assert!(sim.is_connected(node1, node2), "own={} other={}: node1 lost node2", own, other);
+            assert!(sim.is_connected(node2, node1), "own={} other={}: node2 lost node1", own, other);
+        }
+    }
+}
